@@ -314,7 +314,23 @@ def rule_stop_protocol(ctx, crate, g, rule="R-STOP-PROTOCOL"):
         for sb, tt in rn.switches():
             if rn.slice(tt["op"], at=sb).has_call(r"std::sync::WaitTimeoutResult::timed_out"):
                 z = [tb for v, tb in tt["targets"] if v == 0]
-                ok = bool(z) and not any(t.bb in rn.reach([z[0]]) for t in ticks)
+                # which edge means "not timed out"? follow the tested value back to the call, counting negations
+                # (`if !timed_out {break}`, or a helper `stop_requested() = !timed_out` whose result is tested)
+                neg, l_ = False, operand_local(tt["op"])
+                for _ in range(8):
+                    ds_ = [d for d in rn.defs().get(l_, ()) if d["kind"] in ("assign", "call")] if l_ is not None else []
+                    if len(ds_) != 1 or ds_[0]["kind"] == "call":
+                        break
+                    rv_ = ds_[0]["rv"]
+                    if rv_["k"] == "un" and rv_.get("op") == "Not":
+                        neg = not neg
+                        l_ = operand_local(rv_.get("a"))
+                    elif rv_["k"] == "use" and rv_["op"].get("k") in ("copy", "move") and not rv_["op"]["place"]["p"]:
+                        l_ = operand_local(rv_["op"])
+                    else:
+                        break
+                notified = (z[0] if z else None) if not neg else tt["otherwise"]
+                ok = notified is not None and not any(t.bb in rn.reach([notified]) for t in ticks)
                 ctx.check(ok, rule, "notified-exits", rn.name, "%s:%d" % (rn.file, tt.get("line", 0)), "a notified (not timed out) wait ends the thread",
                           "after being notified to stop the thread keeps ticking", cfg)
 
